@@ -117,12 +117,15 @@ def count_cases(trace_path):
 
 def count_params(trace_path):
     n = ok = 0
+    by = {}
     for ln in open(trace_path):
         if '"pouts"' in ln:
             for po in json.loads(ln).get("pouts", []):
                 n += 1
                 ok += po["out"]["res"] == "ok"
-    return n, ok
+                b = by.setdefault(po["pm"], [0, 0])
+                b[0 if po["out"]["res"] == "ok" else 1] += 1
+    return n, ok, {k: "%d answered / %d refused" % tuple(v) for k, v in sorted(by.items())}
 
 
 def corrupt_pout(ev, rng):
